@@ -186,6 +186,27 @@ type Entry struct {
 // Spaces is the "spaces around dash" notation fact (klog derives it from the left side only).
 func (e Entry) Spaces() bool { return len(e.DashL) > 0 }
 
+// SpacesKnown reports whether the notation fact is unambiguous: blanks on both sides of the dash or
+// on neither. For `8:00- 9:00` the property does not say which notation the entry has.
+func (e Entry) SpacesKnown() bool { return (len(e.DashL) > 0) == (len(e.DashR) > 0) }
+
+// DashRule selects how a lopsided dash (`8:00- 9:00`) is read: 0 = the left side decides (what klog
+// does today), 1 = the right side, 2 = either side, 3 = both sides.
+var DashRule = 0
+
+func (e Entry) spacesBy(rule int) bool {
+	l, r := len(e.DashL) > 0, len(e.DashR) > 0
+	switch rule {
+	case 1:
+		return r
+	case 2:
+		return l || r
+	case 3:
+		return l && r
+	}
+	return l
+}
+
 func (e Entry) ValueLit() string {
 	switch e.Kind {
 	case KDuration:
